@@ -370,6 +370,17 @@ def or_split_in_loop() -> dict:
     }
 
 
+def early_join_with_successor(jt: str = "DISCRIMINATOR") -> dict:
+    """a, b initial; j = first-of / 2-of-2 join of (a, b); k follows a alone; z = AND(j, k): completing a has to
+    record its branch on the early join AND start k - work that only a's completion can trigger."""
+    j = st("j", ["a", "b"], [dict(OK, out=["j_o"])], join=jt, **({"thr": 2} if jt == "N_OF_M" else {}))
+    return {
+        "name": f"earlyjoin_successor_{jt}",
+        "confluent": True,
+        "stages": [st("a", [], [dict(OK, out=["a_o"])]), st("b", [], [dict(OK), dict(OK, out=["b_o"])]), j, st("k", ["a"], [dict(OK, out=["k_o"])]), st("z", ["j", "k"], [dict(OK, out=["z_o"])])],
+    }
+
+
 def stopped_branch() -> dict:
     """r -> x (fails with failPipeline=False: ends STOPPED, the workflow goes on) next to r -> a -> y: whatever the
     order in which x's CompleteWorkflow and the other branch's messages arrive, a and y run."""
@@ -406,6 +417,8 @@ CONFLUENT_FAMILY = [
     skip_stage,
     stopped_branch,
     or_split_in_loop,
+    early_join_with_successor,
+    lambda: early_join_with_successor("N_OF_M"),
 ]
 
 
